@@ -18,6 +18,8 @@ CLAIMS = {
          "expressions: generated family up to depth 2, seed-sampled in the quick tier; regexp terms outside; for >=31 measurements only two positions are symbolic"),
  "C07": ("bounded symbolic execution of the real tokenizer/parsers/NewFilter/ProjectionParser.Parse on symbolic strings and expression texts; panics and non-termination are violations",
          "bounded by string/text length and alphabet; regexp bodies outside (native regexp needs concrete text)"),
+ "C08": ("bounded symbolic execution of the real interning, group-growth, exclusion and residue code: key equality is compared with equality of the projected tuples for symbolic values, with the hash modelled as an uninterpreted function so that bucket collisions are explored",
+         "bounded by results, keys and one-byte values; hash model instead of runtime maphash"),
  "C09": ("bounded symbolic execution of Projection.Project/Key.Less/SortKeys over symbolic observation histories; the comparison is checked against a reference lexicographic order computed from the history (rank of first observation per field, bytewise, list position, numeric), and irreflexivity/asymmetry/totality/transitivity are asserted on all pairs and triples",
          "bounded by number of results and value alphabet; 'num' on a concrete list of strings"),
 }
